@@ -118,10 +118,10 @@ theorem rayRows_wf (n : Nat) (e : List Int) (cs : List Con) (hwf : WF n cs) (he 
   · exact he
   · exact hwf d hd
 
-theorem lpMax_correct (n : Nat) (e : List Int) (k : Int) (cs : List Con)
+theorem lpMaxSlow_correct (n : Nat) (e : List Int) (k : Int) (cs : List Con)
     (hwf : WF n cs) (hns : NonStrict cs) (he : e.length ≤ n) :
-    CorrectS (sem cs) (linObj e k) (lpMax n e k cs) := by
-  unfold lpMax
+    CorrectS (sem cs) (linObj e k) (lpMaxSlow n e k cs) := by
+  unfold lpMaxSlow
   by_cases hf : feasible n cs = true
   · simp only [hf, Bool.not_true, Bool.false_eq_true, if_false]
     obtain ⟨x0, hx0⟩ := (feasible_iff n cs hwf).mp hf
@@ -130,27 +130,7 @@ theorem lpMax_correct (n : Nat) (e : List Int) (k : Int) (cs : List Con)
       obtain ⟨d, hd⟩ := (feasible_iff n _ (rayRows_wf n e cs hwf he)).mp hr
       exact unbounded_of_ray e k cs x0 d hx0 hd
     · simp only [hr, Bool.false_eq_true, if_false]
-      cases hc : lpCandidate n e cs with
-      | none => exact lpMaxFM_correct n e k cs hwf hns he
-      | some x =>
-        simp only
-        split
-        · rename_i hchk
-          rw [Bool.and_eq_true, List.all_eq_true, Bool.not_eq_true', ← Bool.not_eq_true] at hchk
-          obtain ⟨hsat, hnb⟩ := hchk
-          have hwf' : WF n (betterRow e k (dot e x.val + (k : Rat)) :: cs) := by
-            intro c hc'
-            rcases List.mem_cons.mp hc' with rfl | h
-            · simp only [betterRow, gtRow, List.length_map]; exact he
-            · exact hwf c h
-          rw [feasible_iff n _ hwf'] at hnb
-          refine ⟨⟨x.val, fun c hc' => (conHolds_iff c _).mp (hsat c hc'), rfl⟩, fun y hy => ?_⟩
-          by_contra hlt
-          apply hnb
-          refine ⟨y, ?_⟩
-          rw [Sat_cons]
-          exact ⟨(betterRow_sat e k _ y).mpr (not_le.mp hlt), hy⟩
-        · exact lpMaxFM_correct n e k cs hwf hns he
+      exact lpMaxFM_correct n e k cs hwf hns he
   · have hf' : feasible n cs = false := by simpa using hf
     simp only [hf', Bool.not_false, if_true]
     show sem cs = ∅
@@ -158,18 +138,52 @@ theorem lpMax_correct (n : Nat) (e : List Int) (k : Int) (cs : List Con)
     intro x hx
     exact hf ((feasible_iff n cs hwf).mpr ⟨x, hx⟩)
 
-theorem lpMax_known (n : Nat) (e : List Int) (k : Int) (cs : List Con) : (lpMax n e k cs).isKnown = true := by
+theorem isMaxAt_correct (n : Nat) (e : List Int) (k : Int) (cs : List Con) (x : Pt)
+    (hwf : WF n cs) (he : e.length ≤ n) (h : isMaxAt n e k cs x = true) :
+    IsMaxS (sem cs) (linObj e k) (dot e x.val + (k : Rat)) := by
+  unfold isMaxAt at h
+  rw [Bool.and_eq_true, List.all_eq_true, Bool.not_eq_true', ← Bool.not_eq_true] at h
+  obtain ⟨hsat, hnb⟩ := h
+  have hwf' : WF n (betterRow e k (dot e x.val + (k : Rat)) :: cs) := by
+    intro c hc'
+    rcases List.mem_cons.mp hc' with rfl | h
+    · simp only [betterRow, gtRow, List.length_map]; exact he
+    · exact hwf c h
+  rw [feasible_iff n _ hwf'] at hnb
+  refine ⟨⟨x.val, fun c hc' => (conHolds_iff c _).mp (hsat c hc'), rfl⟩, fun y hy => ?_⟩
+  by_contra hlt
+  apply hnb
+  refine ⟨y, ?_⟩
+  rw [Sat_cons]
+  exact ⟨(betterRow_sat e k _ y).mpr (not_le.mp hlt), hy⟩
+
+theorem lpMax_correct (n : Nat) (e : List Int) (k : Int) (cs : List Con)
+    (hwf : WF n cs) (hns : NonStrict cs) (he : e.length ≤ n) :
+    CorrectS (sem cs) (linObj e k) (lpMax n e k cs) := by
   unfold lpMax
+  split
+  · rename_i x _
+    split
+    · rename_i h
+      exact isMaxAt_correct n e k cs x hwf he h
+    · exact lpMaxSlow_correct n e k cs hwf hns he
+  · exact lpMaxSlow_correct n e k cs hwf hns he
+
+theorem lpMaxSlow_known (n : Nat) (e : List Int) (k : Int) (cs : List Con) : (lpMaxSlow n e k cs).isKnown = true := by
+  unfold lpMaxSlow
   split
   · rfl
   · split
     · rfl
-    · split
-      · simp only
-        split
-        · rfl
-        · exact lpMaxFM_known n e k cs
-      · exact lpMaxFM_known n e k cs
+    · exact lpMaxFM_known n e k cs
+
+theorem lpMax_known (n : Nat) (e : List Int) (k : Int) (cs : List Con) : (lpMax n e k cs).isKnown = true := by
+  unfold lpMax
+  split
+  · split
+    · rfl
+    · exact lpMaxSlow_known n e k cs
+  · exact lpMaxSlow_known n e k cs
 
 /-! ### joining sub-problems -/
 
